@@ -1114,7 +1114,7 @@ def run(run, tier, replay=None):
                 "the two declarations differ; distinct by hash of the case. (2) collect: random allOf lists (referenced leaf and composed parents, inline members, own properties, "
                 "required lists) through the real _process_properties. (3) end to end: exhaustive two-member documents over %d declaration shapes (ref/ref and inline/inline) and random "
                 "documents with chains and parents declared after children, each generated in both member orders and executed in a fresh interpreter; one case = one composed class; "
-                "non-trivial = some property is declared by more than one member." % (len(VARIANTS), 18))
+                "non-trivial = some property is declared by more than one member." % (len(VARIANTS), 22))
     run.assumptions += ["oracles of Merge.merge (float(), isoparse, UUID) are tabulated from the real functions over the strings of the run",
                         "union member identity is abstracted to equality classes of inner_properties, model identity to the class name",
                         "stage C spec (narrow / flatten in c15.py) covers str, int, number, bool, date, date-time, uuid, any, enums, lists, model refs"]
